@@ -11,11 +11,13 @@
 //      default, the result is compared with ref_bfs(), a plain queue-based traversal of the harness' own model of the tree:
 //      equal as sets with every entity exactly once; for a search started at one Section / Source additionally the same
 //      sequence (breadth first, siblings in creation order).
-//      Then (forests with <= 5 quick / 7 thorough nodes) the tree is modified — a child is created under every node / at top level and deleted again; every node is
-//      deleted (with its subtree) from a fresh copy of the tree — and a reduced set of queries is run through the handles
-//      obtained BEFORE the modification and through handles navigated afresh; both must equal the traversal of the
-//      modified model (a cache in a handle would show here).
-//  (2) BACK REFERENCES.  For every forest with <= 3 (thorough: <= 4) nodes: every assignment of <= k metadata links from
+//      Then (forests with <= 5 quick / 7 thorough nodes; the largest size gets the query grid only) the tree is modified —
+//      a child is created under every node / at top level and deleted again; every node is deleted (with its subtree) from
+//      a fresh copy of the tree — and a reduced set of queries (accept-all, one name, one type; all depths, all starts) is
+//      run through the handles obtained BEFORE the modification and through handles navigated afresh; both must equal
+//      the traversal of the modified model (a cache in a handle would show here).
+//  (2) BACK REFERENCES.  For every forest with <= 3 (thorough: <= 4) nodes: every assignment of <= k metadata links
+//      (k = 2 quick; thorough: 3 on forests with <= 3 nodes, 2 on forests with 4 nodes) from
 //      the holders {2 blocks, 3 data arrays, 2 tags, 1 multi-tag, 3 sources (one nested)} to section nodes, and every set
 //      of <= k source links from {2 data arrays, tag, multi-tag} to source nodes.  Section::referringBlocks /
 //      referringDataArrays / referringTags / referringMultiTags / referringSources (without and with a Block argument),
